@@ -433,7 +433,13 @@ void runAssembler(const pbt::Tape& t, pbt::Reader& g, pbt::Ctx& ctx) {
         ctx.label("clause:zero-goal");
         // calibrated (notes/C43.md): worst residual / accuracy observed 13 (LBFGS), ~200 (InteriorPoint), 1613 (LBFGSB, whose pgtol is absolute)
         const bool ipopt = mp > 0 || std::any_of(qvals.begin(), qvals.end(), [](const QValRef& r) { return r.isError; });
-        const double C = ipopt ? 1e4 : anyBound ? 3e4 : 300, bM = C * accUse + 10 * tolUse, bS = bM;
+        const double C = ipopt ? 1e4 : anyBound ? 3e4 : 300; double bM = C * accUse + 10 * tolUse;
+        // LBFGSB also stops when one iteration reduces the goal by less than factr*eps = 1e7*2.2e-16 in ABSOLUTE terms (goals are << 1),
+        // whatever the accuracy: it was seen to stop at goal 2.1e-7 (residual 4.5e-3) at accuracy 1.5e-7. Floor: goal 1e-5, expressed
+        // as a residual through the weights (r_i^2 <= 2 goal sum(w) / (w_i wM)).
+        if (anyBound) { double wt = 0, wmin = Infinity; for (auto& r : markers) if (!r.missing && r.w > 0) { wt += r.w; wmin = std::min(wmin, r.w); } double ws = 0, wsmin = Infinity; for (auto& r : sensors) { ws += r.w; wsmin = std::min(wsmin, r.w); }
+            double fl = 0; if (wt > 0) fl = std::max(fl, std::sqrt(2e-5 * wt / (wmin * wM))); if (ws > 0) fl = std::max(fl, std::sqrt(2e-5 * ws / (wsmin * wO))); bM += fl; }
+        const double bS = bM;
         { double a, b; myGoal(s0, a, b); if (bM < std::max(a, b) / 3) ctx.label("clause:zero-goal:binding"); }
         if (!ctx.check(wm <= bM, "exact markers generated from a reachable configuration, start within " + S(startDist) + " of it: worst marker residual after assemble() is " + S(wm) + " > " + S(bM) + " (accuracy " + S(accUse) + ")")) return;
         if (!ctx.check(wsn <= bS, "exact orientation observations from a reachable configuration, start within " + S(startDist) + ": worst sensor angle after assemble() is " + S(wsn) + " > " + S(bS))) return;
